@@ -39,6 +39,13 @@
                                                                blocked (blocked in Acquire on one side only), bit (ok differs),
                                                                err (same bit, other error variable), table, crash
                   G <sid> ...                                  ghost facts of the model run over the echoed items
+                  V <sid> i <e|f|g> <model item>               every lstep the check performed, in order (e: the echoed item itself,
+                                                               f: forced pure pc move, g: IGc of a gcpass/gcrun item)
+                  V <sid> o <k|end> T:<tid>:<status> L:<name>:<size>:<key>,.. K:<crashed> G:<giveback>
+                                                               the model's expectation at the moment it was compared with the real
+                                                               observation after item k / at the end of the schedule
+                  V <sid> z <n>                                number of V i lines of the schedule
+                  (V lines exist for lib/coqeval.py: the same model items are evaluated INSIDE Coq and compared)
    Only enumeration, parsing and printing happen here; every state change and every enabledness decision is made by
    extracted Coq code (lstep, lk_enabled, lk_forced, lk_gcpass, no_call_in_flight). *)
 type ostring = string
@@ -139,9 +146,16 @@ let m_init = { s = l_init; gp = -1; ngc = 0 }
 type menv = { mi : z; nsh : int }
 let gc_tid0 = 90
 
+(* check mode: every model item handed to lstep, newest first, with its origin (see the V lines) *)
+let log_items = ref false
+let applied : (char * item) list ref = ref []
+let lstep_raw = lstep
+
 let apply (env : menv) (m : mstate) (h : hitem) : mstate =
   let minidle = env.mi in
   let s = m.s in
+  let tag = match h with HWake _ | HFCancel _ -> 'f' | HGc | HGcRun -> 'g' | _ -> 'e' in
+  let lstep mi s it = (if !log_items then applied := (tag, it) :: !applied); lstep_raw mi s it in
   match h with
   | HCall (t, op) -> { m with s = lstep minidle s (ICall (nat_of_int t, op)) }
   | HRun t | HWake t -> { m with s = lstep minidle s (IRun (nat_of_int t)) }
@@ -229,6 +243,23 @@ let ghost_lines (pfx : ostring) (k : int) (evs : lev list) : ostring list =
       | EvShutdown -> Printf.sprintf "G %sshutdown %d" pfx k) evs
 
 let has_giveback (s : lstate) = List.exists (function EvLin (LaGiveBack _) -> true | _ -> false) s.l_trace
+
+(* ---- V lines (lib/coqeval.py) ---- *)
+let tok_of_item = function
+  | ICall (t, op) -> Printf.sprintf "call %d %s" (int_of_nat t) (toks_of_op op)
+  | IRun t -> Printf.sprintf "run %d" (int_of_nat t)
+  | IRunCancel t -> Printf.sprintf "runcancel %d" (int_of_nat t)
+  | ICancel (t, e) -> Printf.sprintf "cancel %d %s" (int_of_nat t) (tok_of_err (Some e))
+  | IGc n -> Printf.sprintf "gc %s" (hex_of_str n)
+  | ITick d -> Printf.sprintf "tick %d" (int_of_z d)
+  | IShutdown -> "shutdown"
+let obs_line (m : mstate) : ostring =
+  let o = observe { m with gp = -1 } in
+  let us s = String.map (fun c -> if c = ' ' then '_' else c) s in
+  String.concat " "
+    (List.map (fun (t, st) -> Printf.sprintf "T:%d:%s" t (us (tok_of_stat st))) o.o_thr
+     @ List.map (fun (n, z, ks) -> Printf.sprintf "L:%s:%d:%s" n z (String.concat "," ks)) o.o_tab
+     @ [Printf.sprintf "K:%d" (if o.o_crashed then 1 else 0); Printf.sprintf "G:%d" (if has_giveback m.s then 1 else 0)])
 
 (* ---- scenarios ---- *)
 type scenario = {
@@ -461,9 +492,16 @@ let check (file : ostring) =
   let blk : obs option ref = ref None in
   let ndiff = ref 0 and first = ref None and nitems = ref 0 and bad = ref None in
   let active = ref false in
+  let nlogged = ref 0 in
+  let flush_items () =
+    List.iter (fun (tag, it) -> incr nlogged; Printf.printf "V %s i %c %s\n" !sid tag (tok_of_item it)) (List.rev !applied);
+    applied := [] in
+  log_items := true;
   let flush_block () =
     (match !blk with
      | Some got ->
+         flush_items ();
+         Printf.printf "V %s o %d %s\n" !sid !cur_k (obs_line !s);
          let got = { got with o_thr = List.sort compare got.o_thr; o_tab = List.sort compare got.o_tab } in
          let ds = compare_obs !sid !cur_k (observe !s) got in
          List.iter (fun (kind, line) ->
@@ -479,7 +517,10 @@ let check (file : ostring) =
        | None -> Printf.printf "R %s ok %d %d\n" !sid !nitems (if complete then 1 else 0)
        | Some (k, kind) -> Printf.printf "R %s diff %d %s %d %d\n" !sid k kind !ndiff (if complete then 1 else 0));
       Printf.printf "G %s giveback %d\n" !sid (if has_giveback !s.s then 1 else 0);
-      Printf.printf "G %s crashed %d\n" !sid (if !s.s.l_crashed then 1 else 0)
+      Printf.printf "G %s crashed %d\n" !sid (if !s.s.l_crashed then 1 else 0);
+      flush_items ();
+      Printf.printf "V %s o end %s\n" !sid (obs_line !s);
+      Printf.printf "V %s z %d\n" !sid !nlogged
     end;
     active := false in
   (try
@@ -489,7 +530,8 @@ let check (file : ostring) =
          match split_ws line with
          | ["S"; id] ->
              finish false;
-             sid := id; s := m_init; mi := { mi = Z0; nsh = 1 }; cur_k := -1; blk := None; ndiff := 0; first := None; nitems := 0; bad := None; active := true
+             sid := id; s := m_init; mi := { mi = Z0; nsh = 1 }; cur_k := -1; blk := None; ndiff := 0; first := None; nitems := 0; bad := None; active := true;
+             applied := []; nlogged := 0
          | ["C"; v] -> mi := { !mi with mi = z_of_int (int_of_string v) }
          | ["H"; v] -> mi := { !mi with nsh = max 1 (int_of_string v) }
          | "I" :: k :: rest when !active ->
